@@ -54,3 +54,46 @@ class VersionNewer(ContractBase):
 
     def ensures(c):
         return {'lex': c.result == lex_lt(c['than'], ver(c, 'self'))}
+
+
+# ---------------------------------------------------------------- schedule._diff: current versus persisted versions
+VMAP = MapOf(ATOM, ATOM)              # name -> current version string
+PMAP = MapOf(ATOM, ListSet(ATOM))     # name -> persisted version strings
+
+
+@contract(W, 'dawgie/pl/schedule.py', '_diff', props=['C15'])
+class _diff(ContractBase):
+    params = {'curr': VMAP, 'prev': PMAP}
+    returns = ListSet(ATOM)
+    modifies = []
+    locals = {'diff': ListSet(ATOM)}
+
+    @staticmethod
+    def _changed(c, k):
+        cur, prev = c['curr'], c['prev']
+        return And(Not(VMAP.opt.is_none(cur[k])),
+                   Or(PMAP.opt.is_none(prev[k]), Not(PMAP.opt.val(prev[k])[VMAP.opt.val(cur[k])])))
+
+    def ensures(c):
+        k = c.sk('k', ATOM)
+        return {'exact': c.result[k] == _diff._changed(c, k)}
+
+    def _inv(c):
+        k = c.sk('k', ATOM)
+        return {'exact': c.loc('diff')[k] == And(c.done[k], _diff._changed(c, k))}
+    loops = {'for k in curr': Loop(inv=_inv)}
+
+
+def _lemmas():
+    """order lemmas over the lexicographic spec the six operators were proved equal to"""
+    a, b, c = [VERSION.fresh(n) for n in 'abc']
+    lt, le = lex_lt, (lambda x, y: Or(lex_lt(x, y), x == y))
+    return [('trichotomy', Or(lt(a, b), a == b, lt(b, a))),
+            ('exclusive', And(Not(And(lt(a, b), lt(b, a))), Not(And(lt(a, b), a == b)))),
+            ('transitive', Implies(And(lt(a, b), lt(b, c)), lt(a, c))),
+            ('antisymmetric', Implies(And(le(a, b), le(b, a)), a == b)),
+            ('le-is-not-gt', le(a, b) == Not(lt(b, a)))]
+
+
+_lemmas._mod = __name__
+W.lemmas = getattr(W, 'lemmas', []) + [('C15', 'order', _lemmas)]
